@@ -765,5 +765,5 @@ def plan(tier):
     Enum("seq-remove", lambda: _enum("remove", 5), shards=16),
     Enum("seq-weak", lambda: _enum("weak", 5), shards=16),
     Enum("seq-eq", lambda: _enum("eq", 5), shards=16),
-    Hyp("histories", lambda: _strategy(tier), examples=150000, shards=16),
+    Hyp("histories", lambda: _strategy(tier), examples=600000, shards=16),
   ]
